@@ -305,13 +305,25 @@ def _records(ctx, model):
                f"{sorted(need - passed)} (or is not [(lhs, rhs)])")
     ctx.ob("P/unification_record_from_equation/paths",
            saw == {"rejected", "record"}, where(mem), f"paths {sorted(saw)}")
-    # candidate filters test membership of the *name*
-    src = ast.unparse(mem.node).replace(" ", "")
-    ok = "lhs.namenotinself.lhs_mapping_candidates" in src and \
-        "rhs.namenotinself.rhs_mapping_candidates" in src
+    # candidate filters test membership of the *name* (the candidate sets hold
+    # names; testing the node itself would never match and admit everything)
+    by_name = {"lhs": False, "rhs": False}
+    for ps in summarize(mem.node, node_param=False):
+        for _, pol, v in ps.conds:
+            if not isinstance(v, tuple):
+                continue
+            for side, P_ in (("lhs", L), ("rhs", R)):
+                def hit(t, side=side, P_=P_):
+                    return (t[0] == "compare" and t[1] in (("NotIn",), ("In",))
+                            and t[2] == ("attr", P_, "name")
+                            and t[3] == (("self", f"{side}_mapping_candidates"),))
+                if contains(v, hit):
+                    by_name[side] = True
+    ok = all(by_name.values())
     ctx.ob("P/unification_record_from_equation/candidates-by-name", ok,
            where(mem), "only declared pattern variables may be bound" if ok else
-           "the candidate filters no longer test 'name not in candidates'")
+           "the candidate filters no longer test '<side>.name (not) in "
+           f"self.<side>_mapping_candidates' ({by_name})")
     # unify_map
     mm, fn = model.func(f"{UNI}:unify_map")
     saw = set()
